@@ -36,7 +36,7 @@ FLOORS = {"quick": {"sink_acks_checked": 30000, "sink_sequences": 5000, "sender_
                     "cc_TCPReno": 500},
           "thorough": {"sink_acks_checked": 100000, "sink_sequences": 10000, "sender_runs": 40000, "sender_completed": 40000,
                        "faults_applied": 80000, "data_drops_applied": 30000, "ack_drops_applied": 30000, "delays_applied": 40000,
-                       "timeouts_seen": 30000, "fast_retransmits_seen": 2000, "lossfree_runs": 200,
+                       "timeouts_seen": 30000, "fast_retransmits_seen": 2000, "lossfree_runs": 60,
                        "exhaustive_spaces": 40, "cc_TCPCubic": 10000, "cc_TCPReno": 10000}}
 KEYS = tuple(FLOORS["quick"].keys()) + ("random_pattern_runs", "dup_transmissions", "drained_after_completion")
 MSS = 512
